@@ -142,6 +142,11 @@ func tvPB(v TV) *pb.TypedValue {
 		return &pb.TypedValue{Value: &pb.TypedValue_DoubleVal{DoubleVal: math.Float64frombits(v.U)}}
 	case "decimal":
 		return &pb.TypedValue{Value: &pb.TypedValue_DecimalVal{DecimalVal: &pb.Decimal64{Digits: v.I, Precision: v.P}}}
+	case "leaflistnil":
+		// oneof arm holding a nil *ScalarArray: reads as the empty list after the wire
+		return &pb.TypedValue{Value: &pb.TypedValue_LeaflistVal{}}
+	case "decimalnil":
+		return &pb.TypedValue{Value: &pb.TypedValue_DecimalVal{}}
 	case "leaflist":
 		sa := &pb.ScalarArray{}
 		for _, e := range v.L {
